@@ -84,7 +84,17 @@ def age_worker(job):
                         tests.append([kind, sg + str(n)])
                         specs.append((kind, sg + str(n)))
             args = ["find", "d", "-mindepth", "1", "-sorted"] + lbl.label_args(tests)
-            both = common.run_find_inproc([("c", args, now), ("t", args + [",", "-daystart"], now)], sb, sb)
+            env = None
+            if rng.random() < 0.4:
+                # a time zone with daylight saving whose clocks changed one to three days before `now` (or change shortly after it): ages
+                # are elapsed time, so the hour the wall clock skipped or repeated does not enter them
+                yday = time.gmtime(now // NS - rng.choice([1, 2, 3, -1]) * 86400 - 43200).tm_yday - 1
+                a_, b_ = yday, (yday + rng.choice([30, 180, 300])) % 365
+                if rng.random() < 0.5:
+                    a_, b_ = b_, a_
+                env = dict(os.environ, TZ="VST%dVDT,%d/%d,%d/%d" % (rng.choice([0, -5, 8]), a_, rng.choice([0, 2]), b_, rng.choice([0, 3])))
+                st.inc("age_runs_under_a_time_zone_whose_clocks_changed_nearby")
+            both = common.run_find_inproc([("c", args, now), ("t", args + [",", "-daystart"], now)], sb, sb, env=env)
             res = both["c"]
             # -daystart changes the reference instant only for the tests written AFTER it: put at the very end it changes nothing
             st.inc("runs_with_a_trailing_daystart")
